@@ -97,6 +97,7 @@ class VF:
         self.frame = 0
         self.nframes = 0
         self.pc = []
+        self.pc_outer = []        # path condition of the (inlined) call sites above the current function
         self.dead = False
         self.fn_exits = []       # stack of lists: (cond, value, store)
         self.loop_exits = []     # stack of lists: (kind, label, cond)
@@ -436,8 +437,8 @@ class VF:
             for sp in pat['subs']:
                 if pat['variant'] in ('Some', 'Ok'):
                     pv = val
-                    if isinstance(pv, T.Tm) and T.is_app(pv, 'opt_get'):
-                        pv = index_term(pv[2][0], pv[2][1])       # the payload of v.get(i) is v[i]
+                    if isinstance(pv, T.Tm) and T.is_app(pv, 'opt'):
+                        pv = pv[2][1]       # payload of a modelled option (v.get(i) -> v[i], a.checked_sub(b) -> a - b)
                 else:
                     pv = T.app('payload:' + pat['variant'], self.to_term(val)) if not isinstance(val, Tup) else val
                 self.bind(sp['pat'], pv)
@@ -1251,6 +1252,8 @@ class VF:
         self.inline_stack.append(body['did'])
         self.fn_exits.append([])
         saved_pc = self.pc
+        saved_outer = self.pc_outer
+        self.pc_outer = saved_outer + list(saved_pc)     # events inside the callee happen under the caller's path condition too
         self.pc = []
         saved_le, saved_lb = self.loop_exits, self.loop_pc_base
         self.loop_exits, self.loop_pc_base = [], []
@@ -1261,6 +1264,7 @@ class VF:
         ret = self.finish_fn(v)
         self.loop_exits, self.loop_pc_base = saved_le, saved_lb
         self.pc = saved_pc
+        self.pc_outer = saved_outer
         self.inline_stack.pop()
         self.owner_stack.pop()
         self.frame = saved
@@ -1276,8 +1280,8 @@ class VF:
         for i, a in enumerate(args):
             if isinstance(a, Ref) and a.mut:
                 self.write(a.place, T.app('post%d' % i, res))
-        self.rec_calls.append((name, targs, res, tuple(self.pc), node.get('sp')))
-        self.events.append(Event(op='rec:' + name, args=targs, res=res, pc=tuple(self.pc), loops=tuple(self.loop_stack), sp=node.get('sp'), owner=self.owner(), key=name))
+        self.rec_calls.append((name, targs, res, tuple(self.pc_outer + self.pc), node.get("sp")))
+        self.events.append(Event(op='rec:' + name, args=targs, res=res, pc=tuple(self.pc_outer + self.pc), loops=tuple(self.loop_stack), sp=node.get('sp'), owner=self.owner(), key=name))
         return res
 
     def apply_closure(self, clos, args):
@@ -1318,7 +1322,7 @@ class VF:
         for i, a in enumerate(args):
             if isinstance(a, Ref) and a.mut:
                 self.write(a.place, T.app('post%d' % i, res))
-        self.events.append(Event(op=opname, key=key, args=targs, res=res, pc=tuple(self.pc), loops=tuple(self.loop_stack),
+        self.events.append(Event(op=opname, key=key, args=targs, res=res, pc=tuple(self.pc_outer + self.pc), loops=tuple(self.loop_stack),
                                  sp=node.get('sp') if node else None, owner=self.owner(), fn=fn,
                                  refs=[(a.place, a.mut) if isinstance(a, Ref) else None for a in args]))
         if node is not None and str(node.get('ty', '')).startswith('&mut ') and any(isinstance(a, Ref) for a in args):
@@ -1328,7 +1332,7 @@ class VF:
         return res
 
     def log(self, op, args, node, res=None, **kw):
-        ev = Event(op=op, key=op, args=args, res=res, pc=tuple(self.pc), loops=tuple(self.loop_stack),
+        ev = Event(op=op, key=op, args=args, res=res, pc=tuple(self.pc_outer + self.pc), loops=tuple(self.loop_stack),
                    sp=node.get('sp') if node else None, owner=self.owner(), fn=None, refs=[], **kw)
         self.events.append(ev)
         return ev
@@ -1338,9 +1342,8 @@ class VF:
 
 def variant_test(variant, t):
     """`t` matches `variant`: bounds test for v.get(i), otherwise an uninterpreted is:<variant>(t)"""
-    if T.is_app(t, 'opt_get') and variant in ('Some', 'None'):
-        inb = T.cmp('lt', t[2][1], T.app('len', t[2][0]))
-        return inb if variant == 'Some' else T.lnot(inb)
+    if T.is_app(t, 'opt') and variant in ('Some', 'None'):
+        return t[2][0] if variant == 'Some' else T.lnot(t[2][0])
     return T.app('is:' + variant, t)
 
 
